@@ -33,9 +33,8 @@ def mc_plan(prop: str, tier: str) -> List[Dict[str, Any]]:
     # the configuration in which the drain-timeout deadline of C05 is tightest (see TimeoutBase in RxProps.tla)
     timed_small = [_flow(1, 0, 0, 2, [V, V]), _flow(2, 1, 1, -1, [V, V]), _flow(2, 0, 0, 2, [V, V])]
     timed_big = [_flow(1, P, N, 2, [V] * 3) for P in (0, 1) for N in (0, 2)] + \
-                [_flow(2, P, 2, W, [V] * 3) for P in (0, 1) for W in (-1, 2)] + \
+                [_flow(2, P, 2, 2, [V] * 3) for P in (0, 1)] + \
                 [_flow(2, P, 0, W, [V] * 2) for P in (0, 1) for W in (-1, 2)] + [_flow(0, 0, 0, 2, [V] * 2)]
-    timed_deep = [_flow(2, 0, 0, 2, [V] * 3)]
     sat = [_flow(A, P, 0, -1, [V] * (A + P + 3)) for A in (1, 2) for P in (0, 1)]
     sat_big = [_flow(A, P, 0, -1, [V] * (A + P + 3)) for A in (1, 2) for P in (0, 1, 2)] + \
               [_flow(3, P, 0, -1, [V] * (3 + P + 2)) for P in (0, 1)]
@@ -50,6 +49,8 @@ def mc_plan(prop: str, tier: str) -> List[Dict[str, Any]]:
     m_to = {"task": "ta0", "timeout": 2}
     m_sync = {"task": "ts0", "outcome": "exc"}
     pipe_small = [pipe(a, a == "when_executed", mw1, [m_sf, m_wait]) for a in ("when_received", "when_executed", "when_saved")]
+    pipe_small.append(dict(pipe("when_saved", False, [], [m_wait, m_sf]), ack_future=True))
+    pipe_small.append(dict(pipe("when_received", False, mw1[:0], [m_wait]), ack_future=True, W=2))
     ACKS = ("when_received", "when_executed", "when_saved", "default")
     pipe_big = [pipe(a, s, mw, ms, bs) for a in ACKS
                 for s in (False, True) for mw, ms, bs in (([], [m_wait, m_sf], False), (mw2, [m_sync, m_wait], True))]
@@ -72,7 +73,7 @@ def mc_plan(prop: str, tier: str) -> List[Dict[str, Any]]:
         "C03": [dict(cfgs=flow_small if q else flow_big, outcomes=["ret", "exc"], max_now=0)],
         "C04": [dict(cfgs=sat if q else sat_big, outcomes=["ret"], max_now=0)],
         "C05": [dict(cfgs=timed_small, outcomes=["ret"], max_now=9)] if q else
-               [dict(cfgs=timed_big, outcomes=["ret"], max_now=10), dict(cfgs=timed_deep, outcomes=["ret"], max_now=8)],
+               [dict(cfgs=timed_big, outcomes=["ret"], max_now=9)],
         "C02": [dict(cfgs=pipe_small, outcomes=oc_all, max_now=0)] if q else
                [dict(cfgs=pipe_big, outcomes=oc_all, max_now=0), dict(cfgs=pipe_timed, outcomes=oc_all, max_now=3)],
         "C07": [dict(cfgs=pipe_small, outcomes=oc_all + ["base"], max_now=0)] if q else
